@@ -1,6 +1,6 @@
 (* The Q instance of the model, as the functions the runner calls. *)
 From Coq Require Import List ZArith QArith Bool.
-From SplipyModel Require Import Model.Num Model.BasisDef Model.BasisEval Model.Knots Model.Tensor Model.Obj Model.Deriv.
+From SplipyModel Require Import Model.Num Model.BasisDef Model.BasisEval Model.Knots Model.Tensor Model.Obj Model.Deriv Model.KnotInsert.
 Import ListNotations.
 
 Definition q_basis_evaluate := @basis_evaluate Q NumQ.
@@ -17,4 +17,8 @@ Definition q_wf_basis := @wf_basis Q NumQ.
 Definition q_curve_deriv := @curve_deriv Q NumQ.
 Definition q_surface_deriv := @surface_deriv Q NumQ.
 Definition q_eval_h := @eval_h Q NumQ.
+Definition q_basis_insert_knot := @basis_insert_knot Q NumQ.
+Definition q_obj_insert_knots := @obj_insert_knots Q NumQ.
+Definition q_refine_knots := @refine_knots Q NumQ.
+Definition q_knot_spans := @knot_spans Q NumQ.
 Definition q_res_witness (e : err) : res unit := Err e.
